@@ -3,11 +3,12 @@
   boundaries, after the epoch) the minute-slot table of common/rangecheck.go answers, for EVERY
   arrival time (not only whole minutes), exactly what the specification used by NR.Spec and
   NR.WaitEst says: inside a window → the arrival; before or between windows → the next opening;
-  after the last window → the arrival. In particular the two mis-indexed guards of `toSlotInfo`
-  (`i-1 >= 0`, `i+1 < len(intervals)` test the minute, not the interval index) are harmless for such
-  windows, and the lookup never indexes out of range. For a first window that does NOT start on a
-  minute boundary the table construction does index out of range (counterexample below; the stop API
-  rejects such windows before building the table).
+  after the last window → the arrival; and the lookup never indexes out of range. The table as it was
+  GIVEN guarded its two neighbour accesses with the minute index instead of the interval index
+  (`i-1 >= 0`, `i+1 < len(intervals)`): E26 — three zero-length windows in the second minute of the epoch
+  index out of range (machine-checked counterexample below, reproduced on the Go, repaired in /repo); a
+  first window that does not start on a minute boundary did the same (the stop API rejects such windows
+  before building the table).
 -/
 import NR.RangeCheck
 import NR.Proofs.RangeCheck
@@ -27,8 +28,25 @@ theorem c02_window_lookup (ws : List Iv) (a : Rat) (hwf : WF ws) (ha : 0 ≤ a) 
     toEarliestStart ws a = some (earliestStart ws a) :=
   NR.Proofs.RangeCheck.window_lookup ws a hwf ha
 
-/-- A first window starting at 00:01:30: building the slot of minute 1 reads `intervals[-1]`. -/
-theorem c02_unaligned_first_window_panics : check [(90, 240)] 70 = none := by decide +kernel
+/-- Whatever `SetWindows` accepts is well formed — so the two theorems above cover every stop of every
+model the API lets one build. -/
+theorem c02_accepted_windows_wf (ws : List Iv) (h : accepts ws = true) : WF ws :=
+  NR.Proofs.RangeCheck.accepts_wf ws h
+
+/-- E26, the table as given: `SetWindows` accepts three zero-length windows at 00:01:00, building the
+slot of minute 1 reads `intervals[3]`. The windows satisfy `WF`, so the theorem above was false of the
+given code. -/
+theorem c02_given_guard_counterexample :
+    WF [(60, 60), (60, 60), (60, 60)] ∧ checkOld [(60, 60), (60, 60), (60, 60)] 70 = none ∧
+    check [(60, 60), (60, 60), (60, 60)] 70 = some (false, -1) := by
+  refine ⟨⟨by decide, ?_, by decide +kernel⟩, by decide +kernel, by decide +kernel⟩
+  intro w hw
+  simp at hw
+  subst hw
+  exact ⟨by decide +kernel, by decide +kernel, ⟨1, by decide +kernel⟩, ⟨1, by decide +kernel⟩⟩
+
+/-- The given table, a first window starting at 00:01:30: building the slot of minute 1 reads `intervals[-1]`. -/
+theorem c02_given_unaligned_first_window_panics : checkOld [(90, 240)] 70 = none := by decide +kernel
 
 /-! Non-vacuity. -/
 example : WF [(120, 240), (300, 300), (600, 720), (720, 900)] := by
@@ -40,10 +58,13 @@ example : WF [(120, 240), (300, 300), (600, 720), (720, 900)] := by
   · exact ⟨by decide +kernel, by decide +kernel, ⟨5, by decide +kernel⟩, ⟨5, by decide +kernel⟩⟩
   · exact ⟨by decide +kernel, by decide +kernel, ⟨10, by decide +kernel⟩, ⟨12, by decide +kernel⟩⟩
   · exact ⟨by decide +kernel, by decide +kernel, ⟨12, by decide +kernel⟩, ⟨15, by decide +kernel⟩⟩
+example : accepts [(120, 240), (300, 300), (600, 720), (720, 900)] = true := by decide +kernel
 example : toEarliestStart [(120, 240), (300, 300), (600, 720), (720, 900)] 250 = some 300 := by decide +kernel
 
 end NR.Props.C02W
 
 #print axioms NR.Props.C02W.c02_check_spec
 #print axioms NR.Props.C02W.c02_window_lookup
-#print axioms NR.Props.C02W.c02_unaligned_first_window_panics
+#print axioms NR.Props.C02W.c02_accepted_windows_wf
+#print axioms NR.Props.C02W.c02_given_guard_counterexample
+#print axioms NR.Props.C02W.c02_given_unaligned_first_window_panics
